@@ -35,13 +35,13 @@ theorem casLoop_loc {e : Ev} {c : Hp.St} {pc : Pc} {b : Bool} {cell : Nat} {a : 
     ordering at least Release), the spin of a collector whose cold shard is `b` (a compare-exchange
     with an ordering at least Acquire), or the `addCount` of a collector whose hot shard is `b` (a
     `fetch_add`) -/
-theorem evStep_cnt_cases {k : Nat} {c : Hp.St} {cuts : Cuts} {e : Ev} {pc : Pc} {r : Res × Cuts} {b : Bool}
-    (h : evStep k c cuts e pc = .ok r) (hl : parseLoc e.loc = .cnt b) :
+theorem evStep1_cnt_cases {k : Nat} {c : Hp.St} {cuts : Cuts} {e : Ev} {pc : Pc} {r : Res × Cuts} {b : Bool}
+    (h : evStep1 k c cuts e pc = .ok r) (hl : parseLoc e.loc = .cnt b) :
     (∃ o, pc.task = some (.obsRun o b []) ∧ e.k = "A" ∧ ordGe e.ord "Release" = true) ∨
     (∃ ov S, pc.task = some (.colSpin b ov S) ∧ e.k = "C" ∧ ordGe e.ord "Acquire" = true) ∨
     (∃ ov todo taken S, pc.task = some (.colMove (!b) ov (.addCount :: todo) taken S) ∧ e.k = "A") := by
   obtain ⟨r1, r2⟩ := r
-  unfold evStep at h
+  unfold evStep1 at h
   simp only at h
   split at h
   · -- count
@@ -55,6 +55,7 @@ theorem evStep_cnt_cases {k : Nat} {c : Hp.St} {cuts : Cuts} {e : Ev} {pc : Pc} 
     simp only [Bool.and_eq_true, beq_iff_eq] at hg
     rw [hl] at hg; exact absurd hg.1.1.1.1.2 (by simp)
   · -- obsRun, an update left
+    simp only [obsEntry] at h
     split at h
     · rw [plainR_ok, guard_ok] at h
       obtain ⟨⟨hg, _⟩, _⟩ := h
@@ -141,6 +142,32 @@ theorem evStep_cnt_cases {k : Nat} {c : Hp.St} {cuts : Cuts} {e : Ev} {pc : Pc} 
       rw [hl] at hg; exact absurd hg.2 (by simp)
   · cases h
 
+/-- **what touches a count cell**, for the whole event step: as `evStep1_cnt_cases`, where the
+    collector doing its `addCount` may have silently skipped the no-op `fetch_add(0)` of the bucket
+    `addHot` step just before it (`taken cell = 0`) -/
+theorem evStep_cnt_cases {k : Nat} {c : Hp.St} {cuts : Cuts} {e : Ev} {pc : Pc} {r : Res × Cuts} {b : Bool}
+    (h : evStep k c cuts e pc = .ok r) (hl : parseLoc e.loc = .cnt b) :
+    (∃ o, pc.task = some (.obsRun o b []) ∧ e.k = "A" ∧ ordGe e.ord "Release" = true) ∨
+    (∃ ov S, pc.task = some (.colSpin b ov S) ∧ e.k = "C" ∧ ordGe e.ord "Acquire" = true) ∨
+    (∃ ov todo taken S, (pc.task = some (.colMove (!b) ov (.addCount :: todo) taken S) ∨
+        ∃ cell, cell < k ∧ taken cell = 0 ∧
+          pc.task = some (.colMove (!b) ov (.addHot cell :: .addCount :: todo) taken S)) ∧ e.k = "A") := by
+  unfold evStep at h
+  have h1 := evStep1_cnt_cases h hl
+  rcases skipTask_cases k (parseLoc e.loc) pc.task with hs | ⟨cold, ov, cell, todo, taken, S, ht, hs, hc, h0, _⟩
+  · rw [skipPc_of_task_eq hs] at h1
+    rcases h1 with h1 | h1 | ⟨ov, todo, taken, S, h1, hk⟩
+    · exact .inl h1
+    · exact .inr (.inl h1)
+    · exact .inr (.inr ⟨ov, todo, taken, S, .inl h1, hk⟩)
+  · have e1 : (skipPc k e pc).task = some (.colMove cold ov todo taken S) := by simp [skipPc, hs]
+    rw [e1] at h1
+    rcases h1 with ⟨o, h1, _⟩ | ⟨ov', S', h1, _⟩ | ⟨ov', todo', taken', S', h1, hk⟩
+    · cases h1
+    · cases h1
+    · cases h1
+      exact .inr (.inr ⟨ov, todo', taken, S, .inr ⟨cell, hc, h0, ht⟩, hk⟩)
+
 /-- **(a) count cells are only ever modified by RMWs** — an accepted event on a count cell is a
     `fetch_add` ("A") or a compare-exchange ("C"), never a store or a swap; and a compare-exchange on
     a count cell (it can only be a collector's spin) carries an ordering at least Acquire -/
@@ -162,7 +189,8 @@ theorem evStep_publish_release {k : Nat} {c : Hp.St} {cuts : Cuts} {e : Ev} {pc 
     e.k = "A" ∧ parseLoc e.loc = .cnt b ∧ ordGe e.ord "Release" = true ∧
     (ofEv e).rd = true ∧ (ofEv e).wr = true ∧ (ofEv e).rel = true := by
   obtain ⟨r1, r2⟩ := r
-  unfold evStep at h
+  rw [evStep_eq_evStep1 (by intros; simp [ht])] at h
+  unfold evStep1 at h
   simp only [ht] at h
   rw [plainR_ok, guard_ok] at h
   obtain ⟨⟨hg, _⟩, _⟩ := h
@@ -180,7 +208,8 @@ theorem evStep_spin_acquire {k : Nat} {c : Hp.St} {cuts : Cuts} {e : Ev} {pc : P
     e.k = "C" ∧ parseLoc e.loc = .cnt cold ∧ ordGe e.ord "Acquire" = true ∧
     (ofEv e).rd = true ∧ (e.ok = true → (ofEv e).wr = true ∧ (ofEv e).acq = true) := by
   obtain ⟨r1, r2⟩ := r
-  unfold evStep at h
+  rw [evStep_eq_evStep1 (by intros; simp [ht])] at h
+  unfold evStep1 at h
   simp only [ht] at h
   rw [plainR_ok, guard_ok] at h
   obtain ⟨⟨hg, _⟩, _⟩ := h
